@@ -115,7 +115,7 @@ struct InstRec<'tcx> {
     kind: &'static str, // item | intrinsic | shim:<x> | unresolved | virtual
     env: TypingEnv<'tcx>,
     calls: Vec<(usize, J)>,   // (bb, target)
-    fnrefs: Vec<J>,           // fn items / closures referenced as values
+    fnrefs: Vec<(usize, J)>,  // (bb, fn item / closure referenced as a value)
     has_body: bool,
 }
 
@@ -467,6 +467,15 @@ impl<'tcx> Cx<'tcx> {
         // line of the outermost (call-site) expansion in the crate's own files is less
         // useful than the innermost source location; report the innermost.
         let sm = self.tcx.sess.source_map();
+        let mut sp = sp;
+        for _ in 0..16 {
+            let loc = sm.lookup_char_pos(sp.lo());
+            let name = format!("{}", loc.file.name.prefer_local_unconditionally());
+            if !(name.contains("/rustlib/") || name.starts_with('<')) || !sp.from_expansion() {
+                return s(format!("{}:{}", name, loc.line));
+            }
+            sp = sp.ctxt().outer_expn_data().call_site;
+        }
         let loc = sm.lookup_char_pos(sp.lo());
         s(format!("{}:{}", loc.file.name.prefer_local_unconditionally(), loc.line))
     }
@@ -570,7 +579,7 @@ impl<'tcx> Cx<'tcx> {
         J::Obj(vec![("st", J::Arr(stmts)), ("term", J::Obj(t))])
     }
 
-    fn body_j(&mut self, d: DefId, body: &Body<'tcx>) -> J {
+    fn body_j(&mut self, d: DefId, body: &Body<'tcx>, with_promoted: bool) -> J {
         let di = self.def(d);
         let locals: Vec<J> = body.local_decls.iter().map(|l| s(ty_s(l.ty))).collect();
         let mut names: Vec<J> = Vec::new();
@@ -589,8 +598,15 @@ impl<'tcx> Cx<'tcx> {
                 blocks.push(self.block_j(body, bb));
             }
         }
+        let mut promoted = Vec::new();
+        if with_promoted && matches!(self.tcx.def_kind(d), DefKind::Fn | DefKind::AssocFn | DefKind::Closure) {
+            for pb in self.tcx.promoted_mir(d).iter() {
+                promoted.push(self.body_j(d, pb, false));
+            }
+        }
         J::Obj(vec![
             ("def", J::Int(di as i128)),
+            ("promoted", J::Arr(promoted)),
             ("argc", J::Int(body.arg_count as i128)),
             ("locals", J::Arr(locals)),
             ("names", J::Arr(names)),
@@ -702,7 +718,7 @@ impl<'tcx> Cx<'tcx> {
                                     if let ty::Closure(cd2, cargs2) = cty.kind() {
                                         let hb = self.has_mir(*cd2);
                                         let i = self.inst(*cd2, cargs2, "item", env, hb);
-                                        fnrefs.push(J::Int(i as i128));
+                                        fnrefs.push((bbi.as_usize(), J::Int(i as i128)));
                                     }
                                 }
                             }
@@ -738,7 +754,7 @@ impl<'tcx> Cx<'tcx> {
                         if let Some(t2) = subst(self, t) {
                             if let ty::FnDef(cd, cargs) = t2.kind() {
                                 let tgt = self.resolve_target(env, *cd, cargs);
-                                fnrefs.push(tgt);
+                                fnrefs.push((bbi.as_usize(), tgt));
                             }
                         }
                     }
@@ -779,14 +795,14 @@ impl Callbacks for Facts {
             match tcx.def_kind(d) {
                 DefKind::Fn | DefKind::AssocFn | DefKind::Closure => {
                     let body = tcx.optimized_mir(d);
-                    bodies.push(cx.body_j(d, body));
+                    bodies.push(cx.body_j(d, body, true));
                     if !matches!(tcx.def_kind(d), DefKind::Closure) {
                         roots.push(d);
                     }
                 }
                 DefKind::Const { .. } | DefKind::AssocConst { .. } => {
                     let body = tcx.mir_for_ctfe(d);
-                    bodies.push(cx.body_j(d, body));
+                    bodies.push(cx.body_j(d, body, true));
                 }
                 _ => {}
             }
@@ -889,7 +905,7 @@ impl Callbacks for Facts {
                 ("k", s(r.kind)),
                 ("body", J::Bool(r.has_body)),
                 ("c", J::Arr(calls)),
-                ("r", J::Arr(r.fnrefs)),
+                ("r", J::Arr(r.fnrefs.into_iter().map(|(bb, t)| J::Arr(vec![J::Int(bb as i128), t])).collect())),
             ]));
         }
         // defs last: all referenced defs are now registered
